@@ -64,6 +64,7 @@ type Term struct {
 	Args []*Term
 	S    *Sort
 	key  string
+	id   int // interning order: a run-to-run stable identity (addresses are not)
 	// bound variable marker for quantifiers
 	Bound []*Term // for forall/exists: bound vars (const terms)
 	Pat   []*Term // patterns
@@ -83,19 +84,20 @@ func mk(t *Term) *Term {
 	sb.WriteByte('|')
 	sb.WriteString(t.S.String())
 	for _, a := range t.Args {
-		fmt.Fprintf(&sb, ",%p", a)
+		fmt.Fprintf(&sb, ",%d", a.id)
 	}
 	for _, a := range t.Bound {
-		fmt.Fprintf(&sb, ";%p", a)
+		fmt.Fprintf(&sb, ";%d", a.id)
 	}
 	for _, a := range t.Pat {
-		fmt.Fprintf(&sb, "!%p", a)
+		fmt.Fprintf(&sb, "!%d", a.id)
 	}
 	k := sb.String()
 	if e, ok := termTable[k]; ok {
 		return e
 	}
 	t.key = k
+	t.id = len(termTable) + 1
 	termTable[k] = t
 	return t
 }
@@ -299,7 +301,7 @@ func Eq(a, b *Term) *Term {
 			return Not(a)
 		}
 	}
-	if a.key > b.key {
+	if a.id > b.id {
 		a, b = b, a
 	}
 	return op("=", SBool, a, b)
